@@ -211,6 +211,11 @@ Example dot_flag_groups_stripped :
   final_passes ($"a(?s:.)b") = Ok ($"a.b") /\ final_passes ($"a(?-s:.)b") = Ok ($"a.b").
 Proof. split; vm_compute; reflexivity. Qed.
 
+(* ... and so is the group the printer writes for a character together with its other case:
+   (?i:A), i.e. [Aa], comes out as A (known finding C01-casefold-group-stripped) *)
+Example casefold_group_stripped : final_passes ($"(?i:A)b") = Ok ($"Ab").
+Proof. vm_compute. reflexivity. Qed.
+
 (* ---------- C19: bounds of the group scan, and termination of the flag-group loop ---------- *)
 Lemma fgbe_aux_bounds rest : forall before i cnt alt idx alt',
   fgbe_aux before rest i cnt alt = Ok (idx, alt') -> (i < idx <= i + length rest)%nat.
